@@ -1,8 +1,8 @@
 (* C12 — Instruction read/write information covers what the CPU really does.  Statements only; proofs are in
    coq/theories/RwInfo/*Proofs.v and (reflection over the generated tables and database cases) coq/gen/C12_X86Cover.v. *)
 From Coq Require Import NArith ZArith List Bool.
-From Verif Require Import RwInfo.RwModel RwInfo.RwSpec RwInfo.RwProofs RwInfo.RegWrite RwInfo.RegWriteProofs RwInfo.A64RwModel RwInfo.A64RwProofs.
-From VerifGen Require Import C12_X86RwTables C12_X86Cases_rm_bad C12_X86Cases_cover_bad C12_X86Cover C12_A64Tables C12_A64Cases.
+From Verif Require Import RwInfo.RwModel RwInfo.FeatModel RwInfo.RwSpec RwInfo.RwProofs RwInfo.RegWrite RwInfo.RegWriteProofs RwInfo.A64RwModel RwInfo.A64RwProofs RwInfo.FeatProofs.
+From VerifGen Require Import C12_X86RwTables C12_X86Cases_rm_bad C12_X86Cases_cover_bad C12_X86Cover C12_A64Tables C12_A64Cases C12_A64Access.
 Import ListNotations.
 Local Open Scope N_scope.
 
@@ -128,3 +128,57 @@ Print Assumptions C12_a64_consecutive_runs.
 Theorem C12_a64_consecutive_runs_refuted : forall c, In c a64_list_cases_bad -> a64_case_ok a64_tabs c = false.
 Proof. exact a64_consecutive_runs_refuted. Qed.
 Print Assumptions C12_a64_consecutive_runs_refuted.
+
+(* query_features: for every case (all three lists; tuples with vector register / vector index ids 16 and 31 included) the model of
+   x86 query_features over the dumped tables answers, and the reported feature set contains every extension of at least one database
+   form the tuple matches (only EVEX forms match a register id 16..31; AVX512_VL is not required with a 512-bit register or index).
+   Cases recorded as findings (c_featcheck = false; none in this snapshot) are refuted instead. *)
+Theorem C12_features_cover_db : forall c, In c (x86_cases_ok ++ x86_cases_rm_bad ++ x86_cases_cover_bad) ->
+  (c_featcheck c = true -> exists rep, query_features x86_tables x86_feat_consts (c_q c) = Some rep /\ features_cover c rep) /\
+  (c_featcheck c = false -> case_feat_ok x86_tables x86_feat_consts c = false).
+Proof. exact x86_features_cover_db. Qed.
+Print Assumptions C12_features_cover_db.
+
+(* AArch64 operand access, database-wide: for every validator-accepted tuple built from the forms of the expanded db/isa_aarch64.json
+   that AsmJit knows and the tuple builder can express (GP, SIMD scalar/vector/element registers, immediates, base / offset / pre- and
+   post-index memory; a64_access_cases of coq/gen), the model of a64 query_rw_info reports every operand the database names as read
+   (n, m, s, t, x) with kRead and every operand it names as written (d, x) with kWrite. *)
+Theorem C12_a64_access_covers_db : forall c, In c a64_access_cases ->
+  exists out, a64_query_rw_info a64_tabs (ac_id c) (ac_ops c) = Some out /\ access_reported (ac_access c) (i_ops out).
+Proof. exact a64_access_covers_db. Qed.
+Print Assumptions C12_a64_access_covers_db.
+
+Theorem C12_a64_access_covers_db_refuted : forall c, In c a64_access_cases_bad -> a64_case_ok a64_tabs c = false.
+Proof. exact a64_access_covers_db_refuted. Qed.
+Print Assumptions C12_a64_access_covers_db_refuted.
+
+(* Link of the byte-level theorems to the model of query_rw_info (for ALL tables, rows and operand positions): on a written GP register
+   operand whose table record has no explicit write mask the generic path reports exactly the masks of C12_gp_bytes_exact
+   (reported_gp with value width = register size); on a written xmm/ymm/zmm operand with the ZExt mark exactly those of
+   C12_vec_bytes_exact_vex (reported_vec). *)
+Theorem C12_generic_path_gp_masks : forall T mode64 row i (d : gp_dest) id,
+  let dsc := nthN (t_op T) (nth i (rr_ops row) 0) d_op in
+  test (clear (or_flags dsc) fZExt) fW = true -> or_w dsc = 0 ->
+  let o := generic_op T (native_gp_size mode64) row i (OReg (gp_regtype d) id) in
+  o_w o = o_w (reported_gp mode64 d (dest_size d)) /\ o_e o = o_e (reported_gp mode64 d (dest_size d)).
+Proof. exact generic_op_gp_masks. Qed.
+Print Assumptions C12_generic_path_gp_masks.
+
+Theorem C12_generic_path_vec_masks : forall T native row i rt id,
+  In rt [11; 12; 13] ->
+  let dsc := nthN (t_op T) (nth i (rr_ops row) 0) d_op in
+  test (clear (or_flags dsc) fZExt) fW = true -> or_w dsc = 0 -> test (or_flags dsc) fZExt = true ->
+  let o := generic_op T native row i (OReg rt id) in
+  o_w o = o_w (reported_vec (N.to_nat (reg_size rt))) /\ o_e o = o_e (reported_vec (N.to_nat (reg_size rt))).
+Proof. exact generic_op_vec_masks. Qed.
+Print Assumptions C12_generic_path_vec_masks.
+
+(* For every table, instruction and operand tuple: with a 512-bit register or index among the operands the model of query_features
+   never reports AVX512_VL. *)
+Theorem C12_features_no_vl_with_zmm : forall T C q rep,
+  query_features T C q = Some rep ->
+  has_rt (fst (reg_analysis (q_arch64 q) (q_ops q))) rt_vec512 = true ->
+  take_nonzero (ad_feat (nthN (t_addl T) (ir_addl (nthN (t_inst T) (q_id q) d_inst)) d_addl)) <> [] ->
+  ~ In (f_AVX512_VL C) rep.
+Proof. exact query_features_no_vl_with_zmm. Qed.
+Print Assumptions C12_features_no_vl_with_zmm.
